@@ -7,6 +7,12 @@ import (
 	"strconv"
 	"strings"
 	"text/template/parse"
+
+	"go/types"
+
+	"golang.org/x/tools/go/ssa"
+
+	"refcheck/internal/eng"
 )
 
 func init() { Register("C38", c38) }
@@ -227,4 +233,132 @@ func c38(x *Ctx) {
 	c.Info["expected_calls"] = len(expected)
 	c.Info["template_calls"] = len(got)
 	c.Min(r, 80)
+
+	// ---- the helpers the template calls: three structural necessary conditions -----------------------------------------
+	const rel = "tools/convert"
+	// (a) nonDefaultOnly: a key that is present with a value that differs from the default is copied – whatever the value is
+	const rA = "C38.nondefault-copied"
+	if f := x.P.Func(rel, "", "nonDefaultOnly"); f != nil && f.Blocks != nil {
+		c.Examined++
+		as := &eng.Assume{Bool: func(v ssa.Value) eng.Tri {
+			if isExtractOf(v, 1, rel+"._fetch") {
+				return eng.True
+			}
+			if isCallValue(v, rel+"._equivalent") {
+				return eng.False
+			}
+			return eng.Unknown
+		}}
+		r := eng.Explore(eng.Query{Fn: f, Assume: as, TrackPhi: func(*ssa.Phi) bool { return true }})
+		bad, n := false, 0
+		for _, e := range r.Exits {
+			ret, ok := e.Instr.(*ssa.Return)
+			if !ok || len(ret.Results) != 1 {
+				continue
+			}
+			n++
+			// the answer is built from the fetched value, not from the default
+			_, fromVal := eng.Derives(e.Facts.Resolve(ret.Results[0]), func(v ssa.Value) bool { return isExtractOf(v, 0, rel+"._fetch") }, eng.FlowOpts{ThroughCalls: true})
+			if !fromVal {
+				bad = true
+			}
+		}
+		c.Decide(!bad && n > 0, rA, "nonDefaultOnly", x.PosOf(f.Pos()), "present and different from the default ⇒ the v1 value is written",
+			"a v1 setting that is present and differs from the v2 default is not always copied (some further condition on the value, e.g. 'not a zero value', sends it to the commented-out default): a v1 file that sets a boolean to false or a number to 0 where v2 defaults to true / non-zero silently changes meaning")
+	} else {
+		c.Unresolved(rA, rel+".nonDefaultOnly", "helper not found")
+	}
+	// (b) _fetch: a missing alternative group name moves on to the next name
+	const rB = "C38.fetch-tries-all-groups"
+	if f := x.P.Func(rel, "", "_fetch"); f != nil && f.Blocks != nil {
+		n := 0
+		eng.Instrs(f, func(in ssa.Instruction) {
+			lk, ok := in.(*ssa.Lookup)
+			if !ok || loopHeader(in) == nil {
+				return
+			}
+			if _, isMap := lk.X.Type().Underlying().(*types.Map); !isMap {
+				return
+			}
+			h := loopHeader(in)
+			n++
+			c.Examined++
+			var oks []ssa.Value
+			if lk.CommaOk {
+				oks = extractOf2(lk, 1)
+			}
+			as := &eng.Assume{Bool: func(v ssa.Value) eng.Tri {
+				for _, o := range oks {
+					if v == o {
+						return eng.False // this group name is not in the data
+					}
+				}
+				// a combined form: data[g].(map[string]any) – the assertion fails too
+				if e, ok := v.(*ssa.Extract); ok && e.Index == 1 {
+					if ta, ok := e.Tuple.(*ssa.TypeAssert); ok {
+						if _, d := eng.Derives(ta.X, func(w ssa.Value) bool { return w == ssa.Value(lk) }, eng.FlowOpts{}); d {
+							return eng.False
+						}
+					}
+				}
+				return eng.Unknown
+			}}
+			r := eng.Explore(eng.Query{Fn: f, Assume: as, Start: in, Classify: func(i2 ssa.Instruction, _ eng.Facts) eng.Event {
+				if i2 == h.Instrs[0] {
+					return eng.EvKill
+				}
+				return eng.EvNone
+			}})
+			left := false
+			for _, e := range r.Exits {
+				if _, isRet := e.Instr.(*ssa.Return); isRet {
+					left = true
+				}
+			}
+			c.Decide(!left, rB, "_fetch/groups", x.Pos(in), "a missing group name ⇒ the next alternative is tried",
+				"when one of the alternative v1 group names (A/B.Key) is missing the loop is left instead of trying the next name: settings under the second name (e.g. [SampleCache], the name v1 really used) are dropped")
+		})
+		if n == 0 {
+			// also the single-value lookup form `data[g].(map…)`
+			c.Hold(rB, "_fetch/no-loop-lookup", x.PosOf(f.Pos()), "no comma-ok group look-up inside the loop")
+		}
+	} else {
+		c.Unresolved(rB, rel+"._fetch", "helper not found")
+	}
+	// (c) the rules converter keeps the user's destination names as they are
+	const rC = "C38.destination-names-kept"
+	if f := x.P.Func(rel, "", "convertRulesToNewConfig"); f != nil && f.Blocks != nil && len(f.Params) >= 1 {
+		rules := f.Params[0]
+		n := 0
+		eng.Instrs(f, func(in ssa.Instruction) {
+			mu, ok := in.(*ssa.MapUpdate)
+			if !ok {
+				return
+			}
+			if _, isConst := eng.ConstString(mu.Key); isConst {
+				return // "__default__"
+			}
+			if fr, _, ok := eng.LoadedField(mu.Map); !ok || fr.Name != "Samplers" {
+				return
+			}
+			n++
+			c.Examined++
+			// the key is the range key over the rules map that was passed in, itself
+			okKey := false
+			if e, ok := mu.Key.(*ssa.Extract); ok && e.Index == 1 {
+				if nx, ok := e.Tuple.(*ssa.Next); ok {
+					if rg, ok := nx.Iter.(*ssa.Range); ok && x.mustDeriveOpt(rg.X, func(v ssa.Value) bool { return v == ssa.Value(rules) }, true) {
+						okKey = true
+					}
+				}
+			}
+			c.Decide(okKey, rC, "convertRulesToNewConfig/Samplers-key", x.Pos(in), "samplers are stored under the v1 file's own section names",
+				"the v2 samplers are not stored under the section names of the v1 rules file as they are (the map was transformed first, e.g. keys lower-cased): destinations whose names contain upper-case letters silently fall back to __default__")
+		})
+		if n == 0 {
+			c.Undecided(rC, "convertRulesToNewConfig", x.PosOf(f.Pos()), "cannot find where per-destination samplers are stored")
+		}
+	} else {
+		c.Unresolved(rC, rel+".convertRulesToNewConfig", "function not found")
+	}
 }
